@@ -73,6 +73,85 @@ macro_rules! try_parse {
     };
 }
 
+
+fn replacements() -> Vec<Value> {
+    vec![Value::Null, json!(-1), json!(18446744073709551615u64), json!(1.5e300), json!(""), json!([]), json!({}), json!([{}]), json!({"": {}}), json!({"$and": {}}), json!({"$in": {}}),
+        json!("99999999999999999999999999999999999999999999999999999999999999999999999999999999999999999999"), json!(true), json!("\u{0}"), json!(["x", 1, null])]
+}
+
+fn all_paths(v: &Value, here: Vec<String>, acc: &mut Vec<Vec<String>>) {
+    if !here.is_empty() {
+        acc.push(here.clone());
+    }
+    match v {
+        Value::Object(m) => {
+            for (k, x) in m {
+                let mut p = here.clone();
+                p.push(k.clone());
+                all_paths(x, p, acc);
+            }
+        }
+        Value::Array(a) => {
+            for (i, x) in a.iter().enumerate().take(6) {
+                let mut p = here.clone();
+                p.push(i.to_string());
+                all_paths(x, p, acc);
+            }
+        }
+        _ => {}
+    }
+}
+
+fn at_path<'a>(v: &'a mut Value, path: &[String]) -> Option<&'a mut Value> {
+    let mut cur = v;
+    for k in path {
+        cur = match cur {
+            Value::Object(m) => m.get_mut(k)?,
+            Value::Array(a) => a.get_mut(k.parse::<usize>().ok()?)?,
+            _ => return None,
+        };
+    }
+    Some(cur)
+}
+
+fn feed(target: &str, bytes: &[u8], out: &mut Out, seen: &mut std::collections::HashMap<String, u64>) {
+    use anoncreds::data_types::cred_def::CredentialDefinition;
+    use anoncreds::data_types::schema::Schema;
+    use anoncreds::types::*;
+    let bytes = &bytes.to_vec();
+    let ok = match target {
+        "Schema" => try_parse!(Schema, bytes),
+        "CredentialDefinition" => try_parse!(CredentialDefinition, bytes),
+        "CredentialDefinitionPrivate" => try_parse!(CredentialDefinitionPrivate, bytes),
+        "CredentialKeyCorrectnessProof" => try_parse!(CredentialKeyCorrectnessProof, bytes),
+        "RevocationRegistryDefinition" => try_parse!(RevocationRegistryDefinition, bytes),
+        "RevocationRegistryDefinitionPrivate" => try_parse!(RevocationRegistryDefinitionPrivate, bytes),
+        "RevocationStatusList" => try_parse!(RevocationStatusList, bytes),
+        "Credential" => try_parse!(Credential, bytes),
+        "W3CCredential" => try_parse!(anoncreds::data_types::w3c::credential::W3CCredential, bytes),
+        "PresentationRequest" => try_parse!(PresentationRequest, bytes),
+        "CredentialRevocationState" => try_parse!(CredentialRevocationState, bytes),
+        "Presentation" => try_parse!(Presentation, bytes),
+        "W3CPresentation" => try_parse!(anoncreds::data_types::w3c::presentation::W3CPresentation, bytes),
+        "CredentialOffer" => try_parse!(CredentialOffer, bytes),
+        "CredentialRequest" => try_parse!(CredentialRequest, bytes),
+        "CredentialRequestMetadata" => try_parse!(CredentialRequestMetadata, bytes),
+        _ => true,
+    };
+    out.count(&format!("c12:parse:{target}"));
+    out.oracle_only += 1;
+    if !ok {
+        let at = crate::last_panic();
+        // where the panic happened is the signature: the known finding is the big-number parser of the external amcl crate
+        let file = at.rsplit_once(':').map(|x| x.0.to_string()).unwrap_or_default();
+        let sig = format!("C12:parse:panic-at:{file}");
+        *seen.entry(sig.clone()).or_insert(0u64) += 1;
+        if seen[&sig] <= 2 {
+            out.oracle_fail("deserialiser panicked", &json!({"fam":"c12.parse","sig":sig,"type": target, "at": at, "text": String::from_utf8_lossy(bytes).chars().take(4000).collect::<String>(), "bytes_hex": bytes.iter().map(|b| format!("{b:02x}")).collect::<String>()}), &json!({"v":"P"}));
+        }
+    }
+}
+
 pub fn parse_fuzz(eng: &mut Engine, rng: &mut Rng, n: u64, out: &mut Out) {
     use anoncreds::data_types::cred_def::CredentialDefinition;
     use anoncreds::data_types::schema::Schema;
@@ -113,10 +192,50 @@ pub fn parse_fuzz(eng: &mut Engine, rng: &mut Rng, n: u64, out: &mut Out) {
         seeds.push(("CredentialRequest", serde_json::to_value(&req).unwrap()));
         seeds.push(("CredentialRequestMetadata", serde_json::to_value(&meta).unwrap()));
     }
+    // restriction-rich requests: every operator, nesting, the legacy list form, null tags, internal tags
+    for (k, restr) in [
+        json!({"$and": [{"cred_def_id": d.cid.0}, {"$or": [{"schema_name": {"$in": ["gvt", "x"]}}, {"$not": {"issuer_id": {"$neq": "did:web:x"}}}]}, {"attr::name::value": {"$like": "A%"}}, {"attr::age::marker": "1"}]}),
+        json!([{"cred_def_id": d.cid.0, "schema_id": null}, {"schema_version": {"$gte": "1.0"}}, {}]),
+        json!({"schema_id": {"$gt": "a"}, "schema_issuer_did": {"$lt": "z"}, "issuer_did": {"$lte": "z"}, "rev_reg_id": {"$neq": ""}}),
+    ].into_iter().enumerate() {
+        let mut r = plan.request_json();
+        if let Some(a) = r["requested_attributes"].as_object_mut() {
+            if let Some((_, v)) = a.iter_mut().next() {
+                v["restrictions"] = restr.clone();
+            }
+        }
+        r["requested_predicates"][format!("fz{k}")] = json!({"name": "age", "p_type": ">=", "p_value": 18, "restrictions": restr, "non_revoked": {"from": 1, "to": 2}});
+        r["non_revoked"] = json!({"from": 5});
+        seeds.push(("PresentationRequest", r));
+    }
     let types: Vec<&str> = seeds.iter().map(|(t, _)| *t).collect();
-    let mut panics = 0u64;
     let mut seen: std::collections::HashMap<String, u64> = std::collections::HashMap::new();
-    for i in 0..n {
+    // exhaustive pass: every position of every seed document (at most `cap` per seed, spread evenly) replaced by every value of
+    // `REPLACEMENTS`; the random passes below then add byte-level damage and deeper combinations
+    let mut work: Vec<(&str, Vec<u8>)> = vec![];
+    let cap = if n > 100_000 { 4000 } else { 250 };
+    for (ty, seed) in &seeds {
+        let mut paths = vec![];
+        all_paths(seed, vec![], &mut paths);
+        let step = (paths.len() / cap).max(1);
+        for path in paths.iter().step_by(step) {
+            for rep in replacements() {
+                let mut v = seed.clone();
+                if let Some(slot) = at_path(&mut v, path) {
+                    *slot = rep;
+                    work.push((*ty, serde_json::to_vec(&v).unwrap()));
+                }
+            }
+        }
+    }
+    out.count_n("c12:parse:exhaustive-position-value", work.len() as u64);
+    let n_work = work.len() as u64;
+    for i in 0..(n + n_work) {
+        if i < n_work {
+            let (ty, bytes) = &work[i as usize];
+            feed(ty, bytes, out, &mut seen);
+            continue;
+        }
         let (ty, seed) = &seeds[(i % seeds.len() as u64) as usize];
         let bytes: Vec<u8> = match rng.below(4) {
             0 => {
@@ -133,39 +252,7 @@ pub fn parse_fuzz(eng: &mut Engine, rng: &mut Rng, n: u64, out: &mut Out) {
         };
         // feed the bytes to the type they were derived from and to one other type
         for target in [*ty, *rng.pick(&types)] {
-            let ok = match target {
-                "Schema" => try_parse!(Schema, &bytes),
-                "CredentialDefinition" => try_parse!(CredentialDefinition, &bytes),
-                "CredentialDefinitionPrivate" => try_parse!(CredentialDefinitionPrivate, &bytes),
-                "CredentialKeyCorrectnessProof" => try_parse!(CredentialKeyCorrectnessProof, &bytes),
-                "RevocationRegistryDefinition" => try_parse!(RevocationRegistryDefinition, &bytes),
-                "RevocationRegistryDefinitionPrivate" => try_parse!(RevocationRegistryDefinitionPrivate, &bytes),
-                "RevocationStatusList" => try_parse!(RevocationStatusList, &bytes),
-                "Credential" => try_parse!(Credential, &bytes),
-                "W3CCredential" => try_parse!(anoncreds::data_types::w3c::credential::W3CCredential, &bytes),
-                "PresentationRequest" => try_parse!(PresentationRequest, &bytes),
-                "CredentialRevocationState" => try_parse!(CredentialRevocationState, &bytes),
-                "Presentation" => try_parse!(Presentation, &bytes),
-                "W3CPresentation" => try_parse!(anoncreds::data_types::w3c::presentation::W3CPresentation, &bytes),
-                "CredentialOffer" => try_parse!(CredentialOffer, &bytes),
-                "CredentialRequest" => try_parse!(CredentialRequest, &bytes),
-                "CredentialRequestMetadata" => try_parse!(CredentialRequestMetadata, &bytes),
-                _ => true,
-            };
-            out.count(&format!("c12:parse:{target}"));
-            out.oracle_only += 1;
-            let _ = panics;
-            if !ok {
-                panics += 1;
-                let at = crate::last_panic();
-                // where the panic happened is the signature: the known finding is the big-number parser of the external amcl crate
-                let file = at.rsplit_once(':').map(|x| x.0.to_string()).unwrap_or_default();
-                let sig = format!("C12:parse:panic-at:{file}");
-                *seen.entry(sig.clone()).or_insert(0u64) += 1;
-                if seen[&sig] <= 2 {
-                    out.oracle_fail("deserialiser panicked", &json!({"fam":"c12.parse","sig":sig,"type": target, "at": at, "text": String::from_utf8_lossy(&bytes).chars().take(4000).collect::<String>(), "bytes_hex": bytes.iter().map(|b| format!("{b:02x}")).collect::<String>()}), &json!({"v":"P"}));
-                }
-            }
+            feed(target, &bytes, out, &mut seen);
         }
     }
 }
